@@ -19,9 +19,9 @@ import (
 func init() { register("C14", c14Run) }
 
 const (
-	c14ClassBytes      = "jls-lossless-vs-near0-bytes-differ-P-not-8-16"
+	c14ClassBytes      = "jls-lossless-vs-near0-bytes-differ"
 	c14ClassThresholds = "jls-default-thresholds-clamp-not-t87"
-	c14ClassErrval     = "jls-lossless-stream-not-source-P-not-8-16"
+	c14ClassErrval     = "jls-lossless-stream-not-source"
 )
 
 // T.87 Annex H.3: the 4x4 example image and its published JPEG-LS bit stream
@@ -150,6 +150,7 @@ func c14Run(c *hx.Ctx) {
 	}
 	jlsKernels(c, n)
 	jlsRunSegments(c, n)
+	jlsScans(c, n/2)
 
 	// (d) Annex H.3 — first validate the transcription of the published vector with the independent
 	// decoder (it must decode to the H.3 image), then compare the library's encoders with it.
